@@ -52,3 +52,14 @@ pub fn complete_elf64_nb1_n3_present() {
 pub fn complete_elf64_nb1_n3_absent() {
     sysv_complete::<1, 3>(Class::ELF64, true);
 }
+
+#[kani::proof]
+#[kani::unwind(8)]
+pub fn complete_elf32_nb1_n2_present() {
+    sysv_complete::<1, 2>(Class::ELF32, false);
+}
+#[kani::proof]
+#[kani::unwind(8)]
+pub fn complete_elf32_nb1_n2_absent() {
+    sysv_complete::<1, 2>(Class::ELF32, true);
+}
